@@ -59,6 +59,7 @@ theorem sub_of_flat {subs : List (List Stmt)} (hsubs : subsCheck subs = true)
     have hpos : Pos (sub :: rest) 0 0 0 :=
       ⟨sub, by simp, hs.ne_nil (i := 0) (by simp), by simp [start_zero]⟩
     have := (sub_sim hs n 0 orc r hn hok 0 0 hpos).of_ge
-    simpa [runSubFuel] using this
+    have h0 : findSub (sub :: rest) 0 = some 0 := by rw [hs.findSub]; simp
+    simpa [runSubFuel, h0] using this
 
 end AasVerif.Yielding
